@@ -43,6 +43,16 @@ theorem inside_iff (r : Region) (e n : Rat) :
     insidePt r e n = true ↔ (r.w ≤ e ∧ e ≤ r.e ∧ r.s ≤ n ∧ n ≤ r.n) := by
   simp [insidePt, and_assoc]
 
+/-- With NaN-able coordinates (`none` = NaN): a point is inside iff BOTH coordinates are numbers satisfying the closed-box
+    predicate; a point with a NaN coordinate is never inside (all four comparisons are false). -/
+theorem inside_opt_iff (r : Region) (e n : Option Rat) :
+    insidePtOpt r e n = true ↔ ∃ x y, e = some x ∧ n = some y ∧ r.w ≤ x ∧ x ≤ r.e ∧ r.s ≤ y ∧ y ≤ r.n := by
+  cases e <;> cases n <;> simp [insidePtOpt, inside_iff]
+theorem inside_nan_is_outside (r : Region) (e n : Option Rat) (h : e = none ∨ n = none) : insidePtOpt r e n = false := by
+  rcases h with rfl | rfl
+  · cases n <;> rfl
+  · cases e <;> rfl
+
 /-- Every point is inside its own bounding region. -/
 theorem point_inside_own_region (east north : List Rat) (r : Region) (h : getRegion east north = some r)
     (e n : Rat) (hp : (e, n) ∈ east.zip north) : insidePt r e n = true := by
